@@ -61,9 +61,13 @@ func (conf *ClientConf) propagate() {
 			tgt = conf.Sources[i]
 			origStat := tgt.StatPayload
 			origBackoff := tgt.ErrorBackoff
+			origHidden := tgt.IncludeHidden
 			reflectutil.CopyStruct(tgt, src)
 			if tgt.isStatPayloadSet {
 				tgt.StatPayload = origStat
+			}
+			if tgt.isIncludeHiddenSet {
+				tgt.IncludeHidden = origHidden
 			}
 			if tgt.isErrorBackoffSet {
 				tgt.ErrorBackoff = origBackoff
@@ -154,8 +158,9 @@ type SourceConf struct {
 	// override a true value because a false boolean value is the "empty"
 	// value and it's impossible to know if it was set in the config file or
 	// if it was just the default value because it wasn't specified.
-	isStatPayloadSet  bool
-	isErrorBackoffSet bool
+	isStatPayloadSet   bool
+	isErrorBackoffSet  bool
+	isIncludeHiddenSet bool
 }
 
 func (c *SourceConf) GenMappingVars() map[string]string {
@@ -232,6 +237,7 @@ func (ss *SourceConf) applyAux(aux *auxSourceConf) (err error) {
 		ss.IncludeHidden = true
 	case strings.ToLower(aux.IncludeHidden) == "false":
 		ss.IncludeHidden = false
+		ss.isIncludeHiddenSet = true
 	}
 	var patterns []*regexp.Regexp
 	for _, s := range append(aux.Include, aux.Ignore...) {
@@ -306,9 +312,11 @@ func (ss *SourceConf) MarshalJSON() ([]byte, error) {
 	case ss.isStatPayloadSet:
 		aux.StatPayload = "false"
 	}
-	aux.IncludeHidden = "false"
-	if ss.IncludeHidden {
+	switch {
+	case ss.IncludeHidden:
 		aux.IncludeHidden = "true"
+	case ss.isIncludeHiddenSet:
+		aux.IncludeHidden = "false"
 	}
 	var strings []string
 	for _, p := range append(ss.Include, ss.Ignore...) {
